@@ -146,7 +146,9 @@ impl MutableItem {
 pub fn encode_signable(seq: i64, value: &[u8], salt: Option<&[u8]>) -> Box<[u8]> {
     let mut signable = vec![];
 
-    if let Some(salt) = salt {
+    // BEP_0044: a salt that is specified as an empty string is as if it was not specified,
+    // nothing in addition to the sequence number and the data is signed.
+    if let Some(salt) = salt.filter(|salt| !salt.is_empty()) {
         signable.extend(format!("4:salt{}:", salt.len()).into_bytes());
         signable.extend(salt);
     }
